@@ -78,6 +78,10 @@ func thoroughSelftest(p *Prog, r *Report, repo, verif string) {
 		want int
 	}{{"mutants", 1}, {"refactors", 0}} {
 		m, _ := filepath.Glob(filepath.Join(verif, d.dir, r.Prop, "*.patch"))
+		if d.want == 0 {
+			// a behaviour-preserving variant must leave every property's check silent, whichever property it was written for
+			m, _ = filepath.Glob(filepath.Join(verif, d.dir, "*", "*.patch"))
+		}
 		sort.Strings(m)
 		for _, f := range m {
 			vs = append(vs, variant{f, d.want})
@@ -105,7 +109,7 @@ func thoroughSelftest(p *Prog, r *Report, repo, verif string) {
 		detail string
 	}
 	results := make([]result, len(vs))
-	sem := make(chan struct{}, 4)
+	sem := make(chan struct{}, 8)
 	var wg sync.WaitGroup
 	self, _ := os.Executable()
 	for i, v := range vs {
